@@ -3,12 +3,18 @@
    The theorems speak about the SeaORM *declarations* [members] (tied to the real exporter by K-exp on every
    run).  The Python half of the property ("syntactically valid, imports cover every name") is decided by the
    ast-based oracle only: C17 is partial there. *)
-From VV.EXP Require Import Names NamesP.
+From VV.EXP Require Import Names NamesP UniqueP.
 
 Theorem C17_unique_name_fresh : forall base used n, unique_name base used = Some n -> mem_str n used = false.
 Proof. exact unique_name_fresh. Qed.
 Print Assumptions C17_unique_name_fresh.
 Check C17_unique_name_fresh : forall base used n, unique_name base used = Some n -> mem_str n used = false.
+
+(* the `while used.contains(&name)` loop always ends: handing out names never diverges *)
+Theorem C17_unique_name_total : forall base used, exists n, unique_name base used = Some n.
+Proof. exact unique_name_total. Qed.
+Print Assumptions C17_unique_name_total.
+Check C17_unique_name_total : forall base used, exists n, unique_name base used = Some n.
 
 Theorem C17_relation_fields_distinct : forall fuel s t rels,
   relation_members fuel s t = Ok rels -> NoDup (map member_name rels).
